@@ -443,6 +443,21 @@ def hgcdFin (n a b s : Nat) (M : HM) (success : Bool) : StepRes :=
   | .inl r => r
   | .inr (r, _) => r
 
+/-- hgcd.c:114-170: after the `while (n > n2)` loop — the second recursive call (if n > s + 2) followed by
+    mpn_hgcd_matrix_adjust and mpn_hgcd_matrix_mul, then the final `for (;;)`.  `r` = (n, a, b, M) at that point. -/
+def hgcdTail (thr : Thr) (rc : Fns) (s : Nat) (r : StepRes) (success : Bool) : StepRes :=
+  if r.ret > s + 2 then                                           -- :114
+    let p := 2 * s - r.ret + 1
+    let M1 := matInit (r.ret - p)                                 -- :122
+    let r1 := rc.hgcd (r.ret - p) (r.a / B ^ p) (r.b / B ^ p) M1  -- :127
+    let a1 := r.a % B ^ p + B ^ p * r1.a
+    let b1 := r.b % B ^ p + B ^ p * r1.b
+    if r1.ret > 0 then
+      let adj := matAdjust r1.M (p + r1.ret) a1 b1 p              -- :144
+      hgcdFin adj.1 adj.2.1 adj.2.2 s (matMul thr.strassen r.M r1.M) true          -- :157
+    else hgcdFin r.ret a1 b1 s r.M success
+  else hgcdFin r.ret r.a r.b s r.M success
+
 /-- mpn_hgcd (hgcd.c:73); `rc` = the functions called recursively. -/
 def hgcdBody (thr : Thr) (rc : Fns) (n a b : Nat) (M : HM) : StepRes :=
   let s := n / 2 + 1
@@ -454,18 +469,7 @@ def hgcdBody (thr : Thr) (rc : Fns) (n a b : Nat) (M : HM) : StepRes :=
     let st : StepRes × Bool := if r.ret ≠ 0 then (r, true) else (⟨n, r.a, r.b, r.M⟩, false)
     match stepLoop (st.1.a + st.1.b + 1) n2 st.1.ret st.1.a st.1.b s st.1.M st.2 with   -- :103
     | .inl r => r
-    | .inr (r, success) =>
-        if r.ret > s + 2 then                                     -- :114
-          let p := 2 * s - r.ret + 1
-          let M1 := matInit (r.ret - p)                           -- :122
-          let r1 := rc.hgcd (r.ret - p) (r.a / B ^ p) (r.b / B ^ p) M1    -- :127
-          let a1 := r.a % B ^ p + B ^ p * r1.a
-          let b1 := r.b % B ^ p + B ^ p * r1.b
-          if r1.ret > 0 then
-            let adj := matAdjust r1.M (p + r1.ret) a1 b1 p        -- :144
-            hgcdFin adj.1 adj.2.1 adj.2.2 s (matMul thr.strassen r.M r1.M) true          -- :157
-          else hgcdFin r.ret a1 b1 s r.M success
-        else hgcdFin r.ret r.a r.b s r.M success
+    | .inr (r, success) => hgcdTail thr rc s r success
   else hgcdFin n a b s M false
 
 /-- mpn_hgcd_reduce (hgcd_reduce.c:213): (ret, a, b, M). -/
